@@ -42,7 +42,9 @@ def KernelOk (inp : PrimalIn) : Prop :=
     expressions), every domain X given in conic form over {+,0,S,e} (possibly with lifted coordinates), every
     cover family with `i ∉ cover i` (user supplied, default, or presolved with any answers of the optimisation
     presolve), every combination of the settings, and every assignment σ satisfying the compiled rows:
-    (i) the AGE vectors sum to at most c (exactly c under `sum_age_force_equality`),
+    (i) the AGE vectors sum to at most c (exactly c, at every index some AGE vector reaches — `reachedB`: the
+        indices of U_I and the members of the covers — under `sum_age_force_equality`; the other indices keep
+        their inequality row, and equality there is false for the model: `sp_ce4`, example below),
     (ii) every entry of an AGE vector other than its own index is nonnegative,
     (iii) every AGE vector defines a signomial that is nonnegative at every point of X,
     (iv) hence the signomial with coefficients c(σ) is nonnegative on all of X.
@@ -61,7 +63,8 @@ theorem primal_sound (Q : CType → List ℝ → Prop) (inp : PrimalIn) (hwf : W
     ((inp.ids.filter fun p => !p.nu.isEmpty) ≠ [] →
       (∀ j, j < m → (inp.ids.map fun p => ageVal σ m inp.c inp.ech p j).sum ≤ cVal σ inp.c j) ∧
       (inp.settings.sumAgeForceEquality = true →
-        ∀ j, j < m → (inp.ids.map fun p => ageVal σ m inp.c inp.ech p j).sum = cVal σ inp.c j) ∧
+        ∀ j, j < m → reachedB inp.ech j = true →
+          (inp.ids.map fun p => ageVal σ m inp.c inp.ech p j).sum = cVal σ inp.c j) ∧
       (∀ p ∈ inp.ids, ∀ j, j < m → j ≠ p.i → 0 ≤ ageVal σ m inp.c inp.ech p j) ∧
       (∀ p ∈ inp.ids, ∀ x, InDom Q inp.X inp.n x →
         0 ≤ sigVal inp.alpha ((List.range m).map fun j => ageVal σ m inp.c inp.ech p j) x)) ∧
@@ -78,7 +81,8 @@ theorem primal_sound_partial (Q : CType → List ℝ → Prop) (inp : PrimalIn) 
     ((inp.ids.filter fun p => !p.nu.isEmpty) ≠ [] →
       (∀ j, j < m → (inp.ids.map fun p => ageVal σ m inp.c inp.ech p j).sum ≤ cVal σ inp.c j) ∧
       (inp.settings.sumAgeForceEquality = true →
-        ∀ j, j < m → (inp.ids.map fun p => ageVal σ m inp.c inp.ech p j).sum = cVal σ inp.c j) ∧
+        ∀ j, j < m → reachedB inp.ech j = true →
+          (inp.ids.map fun p => ageVal σ m inp.c inp.ech p j).sum = cVal σ inp.c j) ∧
       (∀ p ∈ inp.ids, ∀ j, j < m → j ≠ p.i → 0 ≤ ageVal σ m inp.c inp.ech p j) ∧
       (∀ p ∈ inp.ids, ∀ x, InDom Q inp.X inp.n x →
         0 ≤ sigVal inp.alpha ((List.range m).map fun j => ageVal σ m inp.c inp.ech p j) x)) ∧
@@ -107,6 +111,17 @@ example : ¬ ∀ (Q : CType → List ℝ → Prop) (inp : PrimalIn) (_ : WfPrima
   fun H => sp_ce3_not_sound (fun _ _ => True)
     (H _ sp_ce3 sp_ce3_wf sp_ce3_kernelOk sp_ce3_cov0 _ _ sp_ce3_rows sp_ce3σ (sp_ce3_feas _))
 
+/-- part (i) cannot ask for equality at EVERY index under `sum_age_force_equality` (`sp_ConclEqAll`): with all
+    the hypotheses of `primal_sound` in force, `sp_ce4` has an index no AGE vector reaches, whose row stays an
+    inequality (`0 ≤ 5`) -/
+example : ¬ ∀ (Q : CType → List ℝ → Prop) (inp : PrimalIn) (_ : WfPrimal inp) (_ : KernelOk inp)
+    (_ : ∀ p ∈ inp.ids, p.nu = [] → trueIdx (coverOf inp.ech p.i) = [])
+    (_ : inp.settings.kernelBasis = true → ∀ p ∈ inp.ids, p.nu ≠ [] → (p.basis ≠ [] ↔ inp.X = none))
+    (rows : List CRow) (K : List Cone) (_ : primalRows inp = .ok (rows, K))
+    (σ : Nat → ℝ) (_ : FeasRows Q σ rows K), sp_ConclEqAll Q inp σ :=
+  fun H => sp_ce4_not_eqAll (fun _ _ => True)
+    (H _ sp_ce4 sp_ce4_wf sp_ce4_kernelOk sp_ce4_cov0 sp_ce4_basisOk _ _ sp_ce4_rows sp_ce4σ (sp_ce4_feas _))
+
 /-- the ordinary case without kernel basis needs only `hcov0` -/
 theorem primal_sound_ord_partial (Q : CType → List ℝ → Prop) (inp : PrimalIn) (hwf : WfPrimal inp)
     (hord : inp.X = none ∧ inp.settings.kernelBasis = false)
@@ -117,7 +132,8 @@ theorem primal_sound_ord_partial (Q : CType → List ℝ → Prop) (inp : Primal
     ((inp.ids.filter fun p => !p.nu.isEmpty) ≠ [] →
       (∀ j, j < m → (inp.ids.map fun p => ageVal σ m inp.c inp.ech p j).sum ≤ cVal σ inp.c j) ∧
       (inp.settings.sumAgeForceEquality = true →
-        ∀ j, j < m → (inp.ids.map fun p => ageVal σ m inp.c inp.ech p j).sum = cVal σ inp.c j) ∧
+        ∀ j, j < m → reachedB inp.ech j = true →
+          (inp.ids.map fun p => ageVal σ m inp.c inp.ech p j).sum = cVal σ inp.c j) ∧
       (∀ p ∈ inp.ids, ∀ j, j < m → j ≠ p.i → 0 ≤ ageVal σ m inp.c inp.ech p j) ∧
       (∀ p ∈ inp.ids, ∀ x, InDom Q inp.X inp.n x →
         0 ≤ sigVal inp.alpha ((List.range m).map fun j => ageVal σ m inp.c inp.ech p j) x)) ∧
